@@ -77,6 +77,11 @@ func (c *Client) Close() error {
 		ctx, cancelFunc := context.WithTimeout(context.Background(), time.Second*5)
 		defer cancelFunc()
 		_, err := c.channel.FinishSession(ctx)
+		if err != nil {
+			// The session could not be gracefully finished, but the
+			// channel resources should be released anyway.
+			_ = c.channel.Close()
+		}
 		c.channel = nil
 		return err
 	}
